@@ -259,6 +259,24 @@ impl SendChannelReliable {
     }
 }
 
+#[cfg(feature = "verif_hooks")]
+impl SendChannelReliable {
+    pub fn verif_unacked_ids(&self) -> Vec<u64> {
+        self.unacked_messages.keys().copied().collect()
+    }
+
+    pub fn verif_seed_next_message_id(&mut self, next_message_id: u64) {
+        self.next_reliable_message_id = next_message_id;
+    }
+}
+
+#[cfg(feature = "verif_hooks")]
+impl ReceiveChannelReliable {
+    pub fn verif_memory_usage(&self) -> usize {
+        self.memory_usage_bytes
+    }
+}
+
 impl ReceiveChannelReliable {
     pub fn new(max_memory_usage_bytes: usize, ordered: bool) -> Self {
         let reliable_order = match ordered {
